@@ -631,6 +631,8 @@ class Emitter:
                 return f"({self.tx(e[2])} {op} {self.tx(e[3])})"
             if op in ARITH:
                 return f"({self.tx(e[2])} {ARITH[op]} {self.tx(e[3])})"
+        if k == "unary" and e[1] == "*":
+            return self.tx(e[2], ctx)
         if k == "unary" and e[1] == "!":
             if ctx == "c":
                 return f"(¬ {self.tx(e[2], 'c')})"
